@@ -125,6 +125,9 @@ func (x *Exec) doCallVals(p *Path, site ssa.Instruction, cc *ssa.CallCommon, fnv
 			}
 		}
 	}
+	if sc := cc.StaticCallee(); sc != nil && len(args) > 0 {
+		x.extsyncCheck(p, sc, args[0])
+	}
 	callee := cc.StaticCallee()
 	if callee == nil && !cc.IsInvoke() && fnv.Fn != nil {
 		callee = fnv.Fn
@@ -223,6 +226,9 @@ func (x *Exec) external(p *Path, key string, args []Val, freshResults func(strin
 	}
 	x.havocEverything(p)
 	res := freshResults("ext")
+	if len(res) >= 1 && res[0].Label == "" {
+		res[0].Label = key
+	}
 	p.events = append(p.events, Event{Key: key, Args: args, Res: res})
 	k(p, resultVal(rtuple, res))
 }
@@ -433,8 +439,15 @@ func (x *Exec) applyContract(p *Path, site ssa.Instruction, fc *FuncContract, ca
 	if fc.Kind == "extern" {
 		key = fc.Name
 	}
-	if len(res) == 1 && res[0].Label == "" {
+	if len(res) >= 1 && res[0].Label == "" {
 		res[0].Label = key
+	}
+	for _, c := range fc.Ensures {
+		if len(res) >= 1 && res[0].K == KScalar && (strings.Contains(c.Src, "fresh(result)") || strings.Contains(c.Src, "fresh(result0)")) {
+			// the callee hands over an object it has just created: it is not shared yet
+			e.allocated[res[0].S] = true
+			p.nonnil[res[0].S] = true
+		}
 	}
 	p.events = append(p.events, Event{Key: key, Args: evArgs, Res: res})
 	k(p, resultVal(rtuple, res))
@@ -1226,8 +1239,9 @@ func (x *Exec) lockHeldForCallee(p *Path, vars map[string]Val, label, pkg string
 		return false
 	}
 	prefix := base.S + "\x00" + typeKey(base.T) + "." + s.F + "\x00"
+	anyObj := "?\x00" + typeKey(base.T) + "." + s.F + "\x00" // type-level `holds T.mu` of the enclosing function
 	for k := range p.locks {
-		if strings.HasPrefix(k, prefix) {
+		if strings.HasPrefix(k, prefix) || strings.HasPrefix(k, anyObj) {
 			return true
 		}
 	}
@@ -1303,10 +1317,20 @@ func (x *Exec) guardCheck(p *Path, a *Addr, write bool, site ssa.Instruction) {
 	if tc == nil {
 		return
 	}
+	if smu, isSink := tc.Sinks[a.Field]; isSink && !write && !x.isFreshObj(p, a.Obj) {
+		if smu == "" {
+			x.oblige(p, "guard", "sink:"+a.Field, "false", []string{"C09"}, "use of the shared sink "+shortTypeKey(a.TKey)+"."+a.Field+" by concurrent requests is not serialised by any lock")
+		} else {
+			x.lockCheck(p, a.TKey, smu, a.Obj, a.Field, true)
+		}
+	}
 	mu, ok := tc.Guarded[a.Field]
 	if !ok {
 		if write && tc.Immutable[a.Field] && !x.isFreshObj(p, a.Obj) && !x.isSetup(tc) {
 			x.oblige(p, "guard", "immutable_write:"+a.Field, "false", []string{"C09"}, "write to field declared immutable: "+a.TKey+"."+a.Field)
+		}
+		if _, isSink := tc.Sinks[a.Field]; write && !tc.Immutable[a.Field] && !tc.Stable[a.Field] && !isSink && !tc.ExtSync && !x.isFreshObj(p, a.Obj) && !x.isSetup(tc) {
+			x.oblige(p, "guard", "undeclared_write:"+a.Field, "false", []string{"C09"}, "write to "+shortTypeKey(a.TKey)+"."+a.Field+", a field with no declared synchronisation")
 		}
 		return
 	}
@@ -1317,7 +1341,18 @@ func (x *Exec) guardCheck(p *Path, a *Addr, write bool, site ssa.Instruction) {
 }
 
 func (x *Exec) isSetup(tc *TypeContract) bool {
-	return tc.SetupOnly[x.fn.Name()]
+	if tc.SetupOnly[x.fn.Name()] {
+		return true
+	}
+	// option closures (func(*T) error returned by a function whose result type is a named ...Option type)
+	// run inside the constructor, before the object is shared
+	if par := x.fn.Parent(); par != nil && par.Signature.Results().Len() == 1 {
+		if n, ok := types.Unalias(par.Signature.Results().At(0).Type()).(*types.Named); ok && strings.HasSuffix(n.Obj().Name(), "Option") {
+			x.e.note("option closures run inside the constructor (object not yet shared)")
+			return true
+		}
+	}
+	return false
 }
 
 func (x *Exec) lockCheck(p *Path, tkey, mu, obj, field string, write bool) {
@@ -1372,7 +1407,7 @@ func (x *Exec) guardCheckMap(p *Path, mv Val, write bool, site ssa.Instruction) 
 func (x *Exec) isFreshObj(p *Path, obj string) bool {
 	// objects allocated in this activation have names starting with the alloc hint and are >= entry brk;
 	// we track them through nonnil+prefix: allocation results are declared via alloc().
-	return strings.HasPrefix(obj, "|t") && p.nonnil[obj] && strings.Contains(obj, "#") && x.e.allocated[obj]
+	return x.e.allocated[obj]
 }
 
 // havocEverything: arbitrary code ran. Everything is forgotten except immutable/stable state and the state
@@ -1494,4 +1529,64 @@ func (x *Exec) stringers(p *Path, args []Val, then func(p *Path), pk panK) {
 		then(p)
 	}
 	run(p, 0)
+}
+
+// extsyncCheck: a mutator of an externally synchronised object may only be called while holding, exclusively,
+// the guard of the field through which the object was reached (or on an object this activation created, or from a
+// method of an externally synchronised type, which shifts the duty to its own callers).
+func (x *Exec) extsyncCheck(p *Path, callee *ssa.Function, recv Val) {
+	sig := callee.Signature
+	if sig.Recv() == nil {
+		return
+	}
+	tk := typeKey(sig.Recv().Type())
+	tc := x.e.cs.Types[tk]
+	if tc == nil || !tc.ExtSync || !tc.Mutators[callee.Name()] {
+		return
+	}
+	name := "extsync:" + callee.Name()
+	if recv.K == KScalar && x.isFreshObj(p, recv.S) {
+		return
+	}
+	// delegation from a method of an externally synchronised type on its own component
+	for _, fr := range p.frames {
+		if r := fr.fn.Signature.Recv(); r != nil {
+			if otc := x.e.cs.Types[typeKey(r.Type())]; otc != nil && otc.ExtSync {
+				x.oblige(p, "guard", name, "true", []string{"C09"}, "delegated by a method of an externally synchronised type")
+				return
+			}
+		}
+	}
+	if recv.Own == nil {
+		// parameter or unknown provenance: the duty is the caller's
+		if recv.Label != "" && x.params[recv.Label].S != recv.S {
+			// result of a call made by this activation (a constructor): not shared yet
+			x.oblige(p, "guard", name, "true", []string{"C09"}, "receiver was obtained from a call in this activation")
+			return
+		}
+		if recv.Label != "" && x.params[recv.Label].S == recv.S {
+			x.oblige(p, "guard", name, "true", []string{"C09"}, "receiver is a parameter: the caller synchronises")
+			return
+		}
+		x.oblige(p, "guard", name, "false", []string{"C09"}, "mutator "+callee.Name()+" called on an externally synchronised "+shortTypeKey(tk)+" of unknown provenance")
+		return
+	}
+	otc := x.e.cs.Types[recv.Own.TKey]
+	var mu string
+	var ok bool
+	if otc != nil {
+		mu, ok = otc.Guarded[recv.Own.Field]
+		if !ok {
+			mu, ok = otc.Protects[recv.Own.Field]
+		}
+	}
+	if !ok {
+		x.oblige(p, "guard", name, "false", []string{"C09"}, "mutator "+callee.Name()+" called on "+shortTypeKey(recv.Own.TKey)+"."+recv.Own.Field+" ("+shortTypeKey(tk)+", externally synchronised) which no lock guards")
+		return
+	}
+	if x.isFreshObj(p, recv.Own.Obj) {
+		x.oblige(p, "guard", name, "true", []string{"C09"}, "the owning object was created by this activation")
+		return
+	}
+	x.lockCheck(p, recv.Own.TKey, mu, recv.Own.Obj, recv.Own.Field+"."+callee.Name()+"()", true)
 }
